@@ -145,3 +145,14 @@ func PosOf(b *board.Board) refchess.Pos {
 	p.Full = b.VerifFullMoves()
 	return p
 }
+
+// Name renders any 15-bit encoding (also those whose promotion bits name no
+// piece, on which the engine's own String panics).
+func Name(e uint16) string {
+	m := refchess.Dec(e)
+	s := refchess.SqName(int(m.From)) + refchess.SqName(int(m.To))
+	if m.Promo != 0 {
+		s += string("?pnbrqk?"[m.Promo])
+	}
+	return s
+}
